@@ -34,6 +34,7 @@ class Config:
         self.backend = "permanent"
         self.loss = False
         self.reject_all = False     # quick sampler: a post-selection that no output passes (reading the distribution must raise)
+        self.rules = []             # quick sampler: rules of a PostSelection object [(mode, allowed photon numbers)]
 
     @property
     def valid(self):
@@ -75,7 +76,18 @@ STEPS = {
     # reconfigurations after which reading must FAIL (on a fresh object too): a failed recalculation must not leave the cache looking up to date
     "bad-input": lambda cfg: setattr(cfg, "input", [1, 0, 1, 1, 0]),
     "reject-all": lambda cfg: setattr(cfg, "reject_all", not cfg.reject_all),
+    # post-selection given as a PostSelection OBJECT: assigned, then extended IN PLACE with another rule (a change of post-selection like any other)
+    "ps-assign": lambda cfg: (setattr(cfg, "rules", [(0, (0, 1))]), setattr(cfg, "reject_all", False)),
+    "ps-add-rule": lambda cfg: (setattr(cfg, "rules", cfg.rules + [(1, (0, 1))]) if (1, (0, 1)) not in cfg.rules else None, setattr(cfg, "reject_all", False)),
 }
+
+
+def build_ps(rules):
+    import lightworks as lw
+    ps = lw.PostSelection()
+    for m, n in rules:
+        ps.add(m, n)
+    return ps
 
 
 def apply_live(obj, cfg, step, kind):
@@ -94,7 +106,15 @@ def apply_live(obj, cfg, step, kind):
         obj.circuit = c
         obj.input_state = lw.State(cfg.input)
     elif step == "reject-all":
-        obj.post_select = (lambda s: False) if cfg.reject_all else (lambda s: True)
+        obj.post_select = (lambda s: False) if cfg.reject_all else ((lambda s: True) if not cfg.rules else build_ps(cfg.rules))
+    elif step == "ps-assign":
+        obj.post_select = build_ps(cfg.rules)
+    elif step == "ps-add-rule":
+        if isinstance(obj.post_select, lw.PostSelection):
+            if (1, (0, 1)) not in [r.as_tuple() for r in obj.post_select.rules] and len(obj.post_select.rules) < len(cfg.rules):
+                obj.post_select.add(1, (0, 1))          # in place, on the object the sampler already holds
+        else:
+            obj.post_select = build_ps(cfg.rules)
     elif step == "brightness" and kind == "sampler":
         obj.source.brightness = cfg.brightness
     elif step == "indist" and kind == "sampler":
@@ -115,7 +135,7 @@ def fresh(cfg, kind):
     if kind == "sampler":
         return emulator.Sampler(c, lw.State(cfg.input), source=emulator.Source(brightness=cfg.brightness, purity=cfg.purity, indistinguishability=cfg.indist),
                                 backend=cfg.backend)
-    return emulator.QuickSampler(c, lw.State(cfg.input), **({"post_select": (lambda s: False)} if cfg.reject_all else {}))
+    return emulator.QuickSampler(c, lw.State(cfg.input), **({"post_select": (lambda s: False)} if cfg.reject_all else ({"post_select": build_ps(cfg.rules)} if cfg.rules else {})))
 
 
 def dist_equal(a, b):
@@ -211,8 +231,8 @@ def run_history(kind, steps, first_read):
 
 
 def histories(tier, kind):
-    steps = ([s_ for s_ in STEPS if s_ != "reject-all"] if kind == "sampler" else
-             ["new-unitary", "edit-circuit", "param", "input", "herald-photons", "herald-mode", "herald-both", "herald-swap", "loss", "bad-input", "reject-all"])
+    steps = ([s_ for s_ in STEPS if s_ not in ("reject-all", "ps-assign", "ps-add-rule")] if kind == "sampler" else
+             ["new-unitary", "edit-circuit", "param", "input", "herald-photons", "herald-mode", "herald-both", "herald-swap", "loss", "bad-input", "reject-all", "ps-assign", "ps-add-rule"])
     out = [()]
     out += [(s,) for s in steps]
     out += list(itertools.permutations(steps, 2))
